@@ -1,4 +1,4 @@
-#!/bin/sh
+#!/bin/bash
 # usage: tools/run_all_on.sh <repo-dir> [props...]
 # Runs the quick check of every property (or the listed ones) against <repo-dir> without
 # touching evidence, 6 at a time, and prints one line per property: id, exit code, and the
